@@ -67,10 +67,14 @@ def pc_trace(P, start, limit, src):
 
     def cf(x):
         return [ab.enc(x[0]), [ab.enc(y) for y in x[1]]]
-    ev = {"op": "pc_trace", "pda": ab.pda(P), "limit": limit,
+    # a loop that runs past the configured limit has already left the model (binding_pc_stops_at_limit_or_exhaustion):
+    # only the pops up to the limit are recorded then, with the number that were observed
+    npops = len(pops)
+    over = npops > limit
+    ev = {"op": "pc_trace", "pda": ab.pda(P), "limit": limit, "npops": npops,
           "start": [cf(x) for x in st[0]["start"]] if st else [],
-          "pops": [{"src": cf(t["src"]), "nresult": t["nresult"], "todo": [cf(x) for x in t["todo"]]} for t in pops],
-          "res": [conf(c) for c in r], "src": dict(src, limit=limit, pc=1)}
+          "pops": [{"src": cf(t["src"]), "nresult": t["nresult"], "todo": [cf(x) for x in t["todo"]]} for t in pops[:limit]],
+          "res": [] if over else [conf(c) for c in r], "src": dict(src, limit=limit, pc=1)}
     return ev, r
 
 
